@@ -1443,6 +1443,403 @@ def run_rg3d(case):
     return {"nt": lat["D"] >= 2 and (not binding or nb > 0), "cls": cls, "err": e}
 
 
+
+# ---------------------------------------------------------------------------
+# arbitrary geometry: contract_compressed / contract_around / compress_between / tensor_network_ag_compress
+# ---------------------------------------------------------------------------
+
+@st.composite
+def s_graph(draw, tier, min_n=3, max_n=None, phys="some", layered=False, dims=(1, 2, 2, 2, 3), extra=3):
+    """Connected graph (random-parent tree + extra distinct edges) with a bond size per edge, optional dangling
+    indices and -- for the site-grouping compressors -- optionally two tensors ('layers') per site."""
+    if max_n is None:
+        max_n = 7 if tier == "quick" else 9
+    n = draw(st.integers(min_n, max_n))
+    edges = [[draw(st.integers(0, i - 1)), i] for i in range(1, n)]
+    have = {tuple(e) for e in edges}
+    for _ in range(draw(st.integers(0, extra))):
+        a, b = draw(st.integers(0, n - 1)), draw(st.integers(0, n - 1))
+        if a != b and (min(a, b), max(a, b)) not in have:
+            have.add((min(a, b), max(a, b)))
+            edges.append([min(a, b), max(a, b)])
+    g = {"n": n, "edges": edges, "dims": [draw(st.sampled_from(dims)) for _ in edges],
+         "phys": [draw(st.sampled_from({"none": [0], "some": [0, 0, 2, 2, 3], "all": [2, 2, 3]}[phys])) for _ in range(n)],
+         "seed": draw(A.seeds), "kind": draw(st.sampled_from(KINDS)), "dtype": draw(st.sampled_from(A.DTYPES64)),
+         "exponent": draw(st.sampled_from([0.0, 0.0, 0.0, 1.5, -2.0]))}
+    if layered:
+        # layer of each edge end (0/1) and which sites have two layers
+        g["two"] = [draw(st.booleans()) for _ in range(n)]
+        g["ends"] = [[draw(st.integers(0, 1)), draw(st.integers(0, 1))] for _ in edges]
+        g["vdim"] = draw(st.sampled_from([2, 2, 3]))
+    return g
+
+
+def build_graph(g):
+    """Network of the description; labels b<k> (edge k), k<i> (dangling), v<i> (between the two layers of site i);
+    tags I<i> (site) and L0 / L1 (layer)."""
+    qtn = Q()
+    n = int(g["n"])
+    f = fill_fn(g["seed"], g["kind"], g["dtype"])
+    two = g.get("two") or [False] * n
+    inds = {}
+    for i in range(n):
+        inds[i, 0] = []
+        if two[i]:
+            inds[i, 1] = ["v%d" % i]
+            inds[i, 0].append("v%d" % i)
+    sizes = {}
+    for k, ((a, b), d) in enumerate(zip(g["edges"], g["dims"])):
+        la, lb = (g["ends"][k] if g.get("ends") else (0, 0))
+        la = la if two[a] else 0
+        lb = lb if two[b] else 0
+        inds[a, la].append("b%d" % k)
+        inds[b, lb].append("b%d" % k)
+        sizes["b%d" % k] = int(d)
+    for i in range(n):
+        if g["phys"][i]:
+            inds[i, 0].append("k%d" % i)
+            sizes["k%d" % i] = int(g["phys"][i])
+        sizes["v%d" % i] = int(g.get("vdim", 2))
+    ts = []
+    for (i, l), ix in sorted(inds.items()):
+        ts.append(qtn.Tensor(f([sizes[x] for x in ix]), inds=ix, tags=["I%d" % i, "L%d" % l]))
+    tn = qtn.TensorNetwork(ts)
+    if g.get("exponent"):
+        tn.exponent = float(g["exponent"])
+    return tn
+
+
+def graph_outer(g):
+    return tuple("k%d" % i for i in range(int(g["n"])) if g["phys"][i])
+
+
+def graph_classes(g):
+    n, m = int(g["n"]), len(g["edges"])
+    c = ["n=%d" % n, "loops=%d" % min(m - n + 1, 3), g["dtype"], g["kind"]]
+    if any(g["phys"]):
+        c.append("dangling")
+    if g.get("exponent"):
+        c.append("exp0!=0")
+    return c
+
+
+def random_path(n, seed):
+    rng = np.random.default_rng(int(seed))
+    path, m = [], n
+    while m > 1:
+        i, j = sorted(rng.choice(m, size=2, replace=False).tolist())
+        path.append((int(i), int(j)))
+        m -= 1
+    return tuple(path)
+
+
+COMPRESS_MODES = ["auto", "auto", "basic", "virtual-tree", "full-bond", "local-fit"]
+
+
+@st.composite
+def s_compressed_opts(draw, around=False):
+    o = {}
+    tgd = draw(st.sampled_from([1, 1, 0, 2, 3]))
+    if tgd != 1:
+        o["tree_gauge_distance"] = tgd
+    cm = draw(st.sampled_from(COMPRESS_MODES))
+    if cm != "auto":
+        o["compress_mode" if not around else "compress_mode"] = cm
+    if draw(st.integers(0, 2)) == 0:
+        o["compress_late"] = draw(st.booleans())
+    if draw(st.integers(0, 3)) == 0:
+        o["gauge_boundary_only"] = False
+    if draw(st.integers(0, 3)) == 0:
+        o["compress_span"] = draw(st.sampled_from([False, True, 2]))
+    if draw(st.integers(0, 4)) == 0:
+        o["compress_matrices"] = False
+    if draw(st.integers(0, 4)) == 0:
+        o["compress_min_size"] = draw(st.sampled_from([4, 16]))
+    if draw(st.integers(0, 3)) == 0:
+        o["canonize_distance"] = draw(st.sampled_from([0, 1, 2]))
+    if draw(st.integers(0, 3)) == 0:
+        o["canonize_after_distance"] = draw(st.sampled_from([0, 1, 2]))
+    en = draw(st.sampled_from(["auto", "auto", False, True, 1.0]))
+    if en != "auto":
+        o["equalize_norms"] = en
+    return o
+
+
+@st.composite
+def s_compressed(draw, tier):
+    g = draw(s_graph(tier, min_n=4, extra=4))
+    o = draw(s_compressed_opts())
+    if draw(st.integers(0, 2)) == 0:
+        o["strip_exponent"] = True
+    return {"g": g, "opts": o, # (the compressed presets 'greedy-span' / 'greedy-compressed' are left out: cotengra 0.8.2's GreedySpan.get_ssa_path
+            # raises ValueError on graphs with a size-1 bond, which is not quimb's code)
+            "optimize": draw(st.sampled_from(["path", "path", "path", "tree", "tree", "greedy", "auto"])),
+            "pseed": draw(st.integers(0, 10**6)), "chi": draw(st.sampled_from([1, 2, 2, 3, 4, 4, 6, 8, 16])),
+            "cutoff0": draw(st.sampled_from([True, True, True, False])), "inplace": draw(st.sampled_from([False, False, True])),
+            "gauges": draw(st.sampled_from([None, None, None, True])), "order_out": draw(st.booleans())}
+
+
+class CompressLog:
+    """Callbacks handed to the scheme: what every compression saw before, and the bond it left behind."""
+
+    def __init__(self, chi):
+        self.chi = chi
+        self.events = 0
+        self.lossless = True   # every compression so far had min(bond, rest of left, rest of right) <= chi
+        self.worst = 0
+        self.violation = None
+
+    def pre(self, tn, tids):
+        ta, tb = tn.tensor_map[tids[0]], tn.tensor_map[tids[1]]
+        bond = bond_size(ta, tb)
+        lsize = ta.size // bond
+        rsize = tb.size // bond
+        self.events += 1
+        if min(bond, lsize, rsize) > self.chi:
+            self.lossless = False
+
+    def post(self, tn, tids):
+        ta, tb = tn.tensor_map[tids[0]], tn.tensor_map[tids[1]]
+        b = bond_size(ta, tb)
+        self.worst = max(self.worst, b)
+        if b > self.chi and self.violation is None:
+            self.violation = int(b)
+
+
+def run_compressed(case):
+    import cotengra as ctg
+
+    qtn = Q()
+    g = case["g"]
+    tn = build_graph(g)
+    outer = graph_outer(g)
+    out = tuple(reversed(outer)) if case["order_out"] else outer
+    ref, mag = reference(tn, out)
+    n = tn.num_tensors
+    o = dict(case["opts"])
+    chi = int(case["chi"])
+    cutoff = 0.0 if case["cutoff0"] else 1e-10
+    log = CompressLog(chi)
+    opt = case["optimize"]
+    if opt == "path":
+        optimize = random_path(n, case["pseed"])
+    elif opt == "tree":
+        inputs = [tuple(t.inds) for t in tn]
+        sd = {ix: tn.ind_size(ix) for ix in tn.ind_map}
+        optimize = ctg.ContractionTree.from_path(inputs, out, sd, path=random_path(n, case["pseed"]))
+    else:
+        optimize = opt
+    if case["gauges"]:
+        o["gauges"] = True
+        if o.get("compress_mode") in ("virtual-tree", "full-bond", "local-fit"):
+            o.pop("compress_mode")  # documented: with gauges the 'basic' mode is used
+    if o.get("compress_mode") == "local-fit":
+        cutoff = 0.0  # this mode ignores a cutoff (and warns)
+    kw = dict(output_inds=out) if out else {}
+    res = tn.contract_compressed(optimize, max_bond=chi, cutoff=cutoff, callback_pre_compress=log.pre,
+                                 callback_post_compress=log.post, inplace=case["inplace"], **kw, **o)
+    info = dict(entry="contract_compressed", mode=o.get("compress_mode", "auto"), gauges=bool(case["gauges"]),
+                late=o.get("compress_late"), eq=bool(o.get("equalize_norms")) if o.get("equalize_norms", "auto") != "auto" else bool(o.get("strip_exponent")))
+    if log.violation is not None:
+        raise Violation("bond-cap", size=log.violation, cap=chi, **info)
+    got = denote(res, out)
+    e = 0.0
+    exact = log.lossless and cutoff == 0.0 and not case["gauges"] and o.get("compress_mode") != "local-fit"
+    if exact:
+        e = check_value(got, ref, mag, **info)
+    elif not np.all(np.isfinite(got)):
+        raise Violation("non-finite", **info)
+    cls = graph_classes(g) + ["opt=" + opt, "events=%d" % min(log.events, 5), "exact" if exact else "truncating",
+                              "mode=" + o.get("compress_mode", "auto"), "saturated" if log.worst == chi else "below"]
+    cls += ["opt:" + k for k in sorted(o)]
+    return {"nt": log.events > 0, "cls": cls, "err": e}
+
+
+@st.composite
+def s_around_ag(draw, tier):
+    g = draw(s_graph(tier, min_n=4, extra=4))
+    o = draw(s_compressed_opts(around=True))
+    o.pop("compress_mode", None)
+    if draw(st.integers(0, 3)) == 0:
+        o["max_distance"] = draw(st.integers(1, 3))
+    if draw(st.integers(0, 4)) == 0:
+        o["min_distance"] = 1
+    if o.get("equalize_norms", "auto") == "auto":
+        o.pop("equalize_norms", None)
+    return {"g": g, "opts": o, "entry": draw(st.sampled_from(["around", "around", "around_", "center", "corner"])),
+            "targets": draw(st.lists(st.integers(0, 8), min_size=1, max_size=2, unique=True)),
+            "chi": draw(st.sampled_from([1, 2, 2, 3, 4, 4, 6, 8, 16])), "cutoff0": draw(st.sampled_from([True, True, True, False]))}
+
+
+def run_around_ag(case):
+    qtn = Q()
+    g = case["g"]
+    tn = build_graph(g)
+    outer = graph_outer(g)
+    ref, mag = reference(tn, outer)
+    o = dict(case["opts"])
+    chi = int(case["chi"])
+    cutoff = 0.0 if case["cutoff0"] else 1e-10
+    log = CompressLog(chi)
+    entry = case["entry"]
+    cb = dict(callback_pre_compress=log.pre, callback_post_compress=log.post)
+    if entry in ("center", "corner"):
+        for k in ("max_distance", "min_distance"):
+            o.pop(k, None)
+        fn = tn.contract_around_center if entry == "center" else tn.contract_around_corner
+        res = fn(max_bond=chi, cutoff=cutoff, **cb, **o)
+    else:
+        tags = ["I%d" % (t % int(g["n"])) for t in case["targets"]]
+        fn = tn.contract_around_ if entry.endswith("_") else tn.contract_around
+        res = fn(tags, which="any", max_bond=chi, cutoff=cutoff, **cb, **o)
+    info = dict(entry="contract_" + entry.rstrip("_"), late=o.get("compress_late"), eq=bool(o.get("equalize_norms")))
+    if log.violation is not None:
+        raise Violation("bond-cap", size=log.violation, cap=chi, **info)
+    got = denote(res, outer)
+    e = 0.0
+    exact = log.lossless and cutoff == 0.0
+    if exact:
+        e = check_value(got, ref, mag, **info)
+    elif not np.all(np.isfinite(got)):
+        raise Violation("non-finite", **info)
+    cls = graph_classes(g) + ["entry=" + entry, "events=%d" % min(log.events, 5), "exact" if exact else "truncating",
+                              "saturated" if log.worst == chi else "below"] + ["opt:" + k for k in sorted(o)]
+    return {"nt": log.events > 0, "cls": cls, "err": e}
+
+
+@st.composite
+def s_between(draw, tier):
+    g = draw(s_graph(tier, min_n=2, max_n=6, phys="some", dims=(2, 2, 3, 3, 4), extra=2))
+    mode = draw(st.sampled_from(["basic", "basic", "virtual-tree", "full-bond", "local-fit"]))
+    o = {}
+    if mode != "virtual-tree":
+        ab = draw(st.sampled_from(["both", "both", "left", "right"]))
+        if ab != "both":
+            o["absorb"] = ab
+    if mode in ("basic", "virtual-tree") and draw(st.booleans()):
+        o["canonize_distance"] = draw(st.sampled_from([0, 1, 2]))
+    if mode == "basic" and draw(st.integers(0, 2)) == 0:
+        o["canonize_after_distance"] = draw(st.sampled_from([1, 2]))
+    if mode in ("basic", "virtual-tree") and draw(st.integers(0, 2)) == 0:
+        o["equalize_norms"] = draw(st.sampled_from([True, 1.0]))
+    return {"g": g, "mode": mode, "opts": o, "edge": draw(st.integers(0, 20)), "binding": draw(st.booleans()),
+            "chi_frac": draw(st.floats(0.0, 1.0)), "chi_extra": draw(st.sampled_from([0, 0, 1, 4])),
+            "cutoff": draw(st.sampled_from([0.0, 0.0, 1e-10]))}
+
+
+def run_between(case):
+    g, mode = case["g"], case["mode"]
+    tn = build_graph(g)
+    outer = graph_outer(g)
+    ref, mag = reference(tn, outer)
+    k = int(case["edge"]) % len(g["edges"])
+    a, b = g["edges"][k]
+    d = int(g["dims"][k])
+    binding = bool(case["binding"]) and d >= 2
+    chi = binding_chi(case["chi_frac"], d) if binding else d + int(case["chi_extra"])
+    cutoff = float(case["cutoff"]) if binding else 0.0
+    if mode == "local-fit":
+        cutoff = 0.0
+    o = dict(case["opts"])
+    if mode == "local-fit":
+        # the ALS fit solves normal equations; a rank deficient local environment makes numpy raise LinAlgError before
+        # anything is written back (DESIGN 2.5: an accepted rejection)
+        with rejecting(np.linalg.LinAlgError, tag="als-singular:"):
+            tn.compress_between("I%d" % a, "I%d" % b, max_bond=chi, cutoff=cutoff, mode=mode, **o)
+    else:
+        tn.compress_between("I%d" % a, "I%d" % b, max_bond=chi, cutoff=cutoff, mode=mode, **o)
+    ta, tb = tn["I%d" % a], tn["I%d" % b]
+    size = bond_size(ta, tb)
+    info = dict(entry="compress_between", mode=mode, absorb=o.get("absorb", "both"), eq=bool(o.get("equalize_norms")))
+    if size > chi:
+        raise Violation("bond-cap", size=int(size), cap=int(chi), **info)
+    e = 0.0
+    if not binding:
+        e = check_value(denote(tn, outer), ref, mag, **info)
+    cls = graph_classes(g) + ["mode=" + mode, "binding" if binding else "exact", "bond=%d" % d] + ["opt:" + k2 for k2 in sorted(o)]
+    return {"nt": d >= 2 and int(g["n"]) >= 3, "cls": cls, "err": e}
+
+
+AG_METHODS = ["local-early", "local-late", "projector", "su", "superorthogonal", "l2bp"]
+
+
+@st.composite
+def s_ag(draw, tier):
+    method = draw(st.sampled_from(AG_METHODS))
+    bp = method in ("su", "superorthogonal", "l2bp")
+    g = draw(s_graph(tier, min_n=3, max_n=6, phys="all" if bp else "some", layered=True, dims=(1, 2, 2, 2, 3), extra=2))
+    o = {}
+    if draw(st.booleans()):
+        o["canonize"] = draw(st.booleans())
+    if method == "projector" and draw(st.integers(0, 3)) == 0:
+        o["canonize"] = draw(st.sampled_from(["layered", "bp"]))
+        if o["canonize"] == "layered":
+            # documented for genuinely layered networks: every site has both layers, edges stay inside a layer
+            g["two"] = [True] * g["n"]
+            g["ends"] = [[e[0], e[0]] for e in g["ends"]]
+    if method == "projector" and draw(st.integers(0, 4)) == 0:
+        o["lazy"] = True
+    if draw(st.integers(0, 2)) == 0:
+        o["equalize_norms"] = draw(st.sampled_from([True, 1.0]))
+    if bp or o.get("canonize", True):
+        g["kind"] = "gauss"  # divides by bond weights / messages: keep them well conditioned (see s_hotrg2d)
+    return {"g": g, "method": method, "opts": o, "binding": draw(st.booleans()), "chi_frac": draw(st.floats(0.0, 1.0)),
+            "inplace": draw(st.booleans()), "entry": draw(st.sampled_from(["ag", "ag", "1d-like", "2d-like"]))}
+
+
+def run_ag(case):
+    from quimb.tensor.tnag.compress import tensor_network_ag_compress
+
+    qtn = Q()
+    g, method = case["g"], case["method"]
+    tn = build_graph(g)
+    outer = graph_outer(g)
+    ref, mag = reference(tn, outer)
+    n = int(g["n"])
+    sites = ["I%d" % i for i in range(n)]
+    # bond between two sites = product of the edges joining them
+    pair = {}
+    for (a, b), d in zip(g["edges"], g["dims"]):
+        pair[a, b] = pair.get((a, b), 1) * int(d)
+    full = max(pair.values())
+    binding = bool(case["binding"]) and full >= 2 and not case["opts"].get("lazy")
+    chi = binding_chi(case["chi_frac"], full) if binding else full
+    cutoff = 1e-10 if binding else 0.0
+    o = dict(case["opts"])
+    entry = case["entry"]
+    if entry == "ag":
+        res = tensor_network_ag_compress(tn, max_bond=chi, cutoff=cutoff, method=method, site_tags=sites, inplace=case["inplace"], **o)
+    elif entry == "1d-like":
+        from quimb.tensor.tn1d.compress import tensor_network_1d_compress
+
+        res = tensor_network_1d_compress(tn, max_bond=chi, cutoff=cutoff, method=method, site_tags=sites, inplace=case["inplace"],
+                                         permute_arrays=False, **o)
+    else:
+        from quimb.tensor.tn2d.compress import tensor_network_2d_compress
+
+        res = tensor_network_2d_compress(tn, max_bond=chi, cutoff=cutoff, method=method, site_tags=sites, inplace=case["inplace"],
+                                         permute_arrays=False, **o)
+    if case["inplace"] and res is not tn:
+        raise Violation("inplace-new-object", method=method)
+    info = dict(entry="ag_compress:" + entry, method=method, canonize=repr(o.get("canonize", True)), eq=bool(o.get("equalize_norms")),
+                lazy=bool(o.get("lazy")))
+    if not o.get("lazy"):
+        if res.num_tensors != n:
+            raise Violation("one-tensor-per-site", got=res.num_tensors, want=n, **info)
+        for (a, b) in pair:
+            size = bond_size(res["I%d" % a], res["I%d" % b])
+            if size > chi:
+                raise Violation("bond-cap", size=int(size), cap=int(chi), **info)
+    e = 0.0
+    if not binding:
+        e = check_value(denote(res, outer), ref, mag, **info)
+    if set(res.outer_inds()) != set(outer):
+        raise Violation("outer-labels-changed", **info)
+    cls = graph_classes(g) + ["method=" + method, "entry=" + entry, "binding" if binding else "exact", "two-layer=%d" % min(sum(g["two"]), 3)]
+    cls += ["opt:%s=%s" % (k2, o[k2]) if k2 == "canonize" else "opt:" + k2 for k2 in sorted(o)]
+    return {"nt": full >= 2 and (sum(g["two"]) > 0 or len(g["edges"]) >= n), "cls": cls, "err": e}
+
+
 SUBCHECKS = []
 for _g in B2D_GROUPS:
     SUBCHECKS.append(SubCheck(
@@ -1506,4 +1903,25 @@ SUBCHECKS += [
     SubCheck("rg3d", run_rg3d, s_rg3d, examples=(50, 1000), shards=(1, 4),
              rule="3D contract_hotrg / coarse_grain_hotrg / contract_ctmrg / contract_simple_sweep untruncated == einsum, "
                   "coarse graining halves the side and obeys a binding cap; nt: D>=2"),
+]
+
+SUBCHECKS += [
+    SubCheck("compressed.tree", run_compressed, s_compressed, examples=(120, 3000), shards=(1, 4),
+             rule="contract_compressed along a drawn path / ContractionTree / preset on connected graphs of 4-7(9) tensors x "
+                  "options (tree_gauge_distance, compress_mode, compress_late, compress_span, compress_matrices, "
+                  "compress_min_size, canonize distances, gauge_boundary_only, gauges, equalize_norms, strip_exponent, "
+                  "output order, inplace): callbacks record every compression; each bond compressed is <= max_bond right after; "
+                  "when every compression was lossless a priori (min(bond, rest-left, rest-right) <= max_bond, cutoff 0) the "
+                  "result == einsum; nt: >=1 compression happened"),
+    SubCheck("compressed.around", run_around_ag, s_around_ag, examples=(100, 2500), shards=(1, 4),
+             rule="contract_around[_] (tags, any) / contract_around_center / _corner with the same callbacks and oracle; nt: >=1 "
+                  "compression"),
+    SubCheck("compress_between", run_between, s_between, examples=(120, 3000), shards=(1, 4),
+             rule="compress_between(mode basic / virtual-tree / full-bond / local-fit, absorb, canonize distances, "
+                  "equalize_norms) on an edge of a random graph: bond <= max_bond afterwards; max_bond >= bond and cutoff 0: the "
+                  "network denotes the same tensor; nt: bond>=2 and >=3 tensors"),
+    SubCheck("ag_compress", run_ag, s_ag, examples=(100, 2500), shards=(1, 4),
+             rule="tensor_network_ag_compress (and the 1D/2D front ends forwarding to it) x 5 methods on graphs with 1-2 tensors "
+                  "per site: one tensor per site, every site-site bond <= max_bond; max_bond >= full bond, cutoff 0: same tensor; "
+                  "nt: bond>=2 and (a two-layer site or a loop)"),
 ]
